@@ -22,21 +22,25 @@ Radii == {1, 5, 6, 13, 100}             \* 5 and 13: rows exactly on the sphere
 Boxes == {<<2,2,2>>, <<10,8,2>>, <<12,16,16>>, <<200,200,200>>, <<6,8,0>>}      \* full sizes; rows exactly on a face
 Sq(x) == x * x
 AbsI(x) == IF x < 0 THEN -x ELSE x
-InSphere(p, o, r) == Sq(p[1] - o[1]) + Sq(p[2] - o[2]) + Sq(p[3] - o[3]) < Sq(r)
-InBox(p, o, b) == \A d \in 1..3 : 2 * AbsI(p[d] - o[d]) <= b[d]
+\* nd: number of position components (a 2-D output has positions (x, y): the third coordinate of the lattice points, of the
+\* origin and the third box size play no role)
+InSphereN(p, o, r, nd) == Sq(p[1] - o[1]) + Sq(p[2] - o[2]) + (IF nd = 3 THEN Sq(p[3] - o[3]) ELSE 0) < Sq(r)
+InBoxN(p, o, b, nd) == \A d \in 1..nd : 2 * AbsI(p[d] - o[d]) <= b[d]
+InSphere(p, o, r) == InSphereN(p, o, r, 3)
+InBox(p, o, b) == InBoxN(p, o, b, 3)
 MeshPos(lay) == LET i == CHOOSE i \in 1..Len(lay) : lay[i].name = "mesh" IN lay[i].pos
 PosOf(lay, g) == IF g.pos > 0 THEN Pts[g.pos] ELSE IF g.pos = 0 THEN Pts[MeshPos(lay)] ELSE <<>>      \* -1 / -2: a group without usable position
 Rows(lay, g, inside(_)) == IF g.pos < 0 THEN <<>> ELSE SelectSeq([k \in 1..Len(PosOf(lay, g)) |-> k], LAMBDA k : inside(PosOf(lay, g)[k]))
 Expected(lay, inside(_)) == [i \in 1..Len(lay) |-> [name |-> lay[i].name, rows |-> Rows(lay, lay[i], inside), present |-> Rows(lay, lay[i], inside) # <<>>]]
 VARIABLE sc
 Init == sc = [kind |-> "none"]
-Next == sc.kind = "none" /\ \/ \E lay \in Layouts, o \in Origins, r \in Radii : sc' = [kind |-> "sphere", lay |-> lay, o |-> o, r |-> r]
-                            \/ \E lay \in Layouts, o \in Origins, b \in Boxes : sc' = [kind |-> "box", lay |-> lay, o |-> o, b |-> b]
-Exp == IF sc.kind = "sphere" THEN LET f(p) == InSphere(p, sc.o, sc.r) IN Expected(sc.lay, f)
-       ELSE LET f(p) == InBox(p, sc.o, sc.b) IN Expected(sc.lay, f)
+Next == sc.kind = "none" /\ \/ \E lay \in Layouts, o \in Origins, r \in Radii, nd \in {2, 3} : sc' = [kind |-> "sphere", lay |-> lay, o |-> o, r |-> r, nd |-> nd]
+                            \/ \E lay \in Layouts, o \in Origins, b \in Boxes, nd \in {2, 3} : sc' = [kind |-> "box", lay |-> lay, o |-> o, b |-> b, nd |-> nd]
+Exp == IF sc.kind = "sphere" THEN LET f(p) == InSphereN(p, sc.o, sc.r, sc.nd) IN Expected(sc.lay, f)
+       ELSE LET f(p) == InBoxN(p, sc.o, sc.b, sc.nd) IN Expected(sc.lay, f)
 \* every kept row is inside, every dropped row is not; groups are present iff they keep a row
 Sound == sc.kind = "none" \/ \A i \in 1..Len(sc.lay) : LET g == sc.lay[i] e == Exp[i] IN
            g.pos >= 0 => \A k \in 1..Len(PosOf(sc.lay, g)) :
-              (\E j \in 1..Len(e.rows) : e.rows[j] = k) <=> (IF sc.kind = "sphere" THEN InSphere(PosOf(sc.lay, g)[k], sc.o, sc.r) ELSE InBox(PosOf(sc.lay, g)[k], sc.o, sc.b))
+              (\E j \in 1..Len(e.rows) : e.rows[j] = k) <=> (IF sc.kind = "sphere" THEN InSphereN(PosOf(sc.lay, g)[k], sc.o, sc.r, sc.nd) ELSE InBoxN(PosOf(sc.lay, g)[k], sc.o, sc.b, sc.nd))
 Emit == sc.kind = "none" \/ PrintT(ToJson([sc |-> sc, pts |-> [i \in 1..Len(sc.lay) |-> PosOf(sc.lay, sc.lay[i])], exp |-> Exp]))
 ====
